@@ -9,6 +9,7 @@
 #include "iora/core/logger.hpp"
 #include "iora/parsers/json.hpp"
 #include <condition_variable>
+#include <cstdio>
 #include <fstream>
 #include <mutex>
 #include <set>
@@ -227,18 +228,39 @@ private:
   {
     try
     {
-      std::ofstream file(_filename);
-      if (file)
+      // Never rewrite the store file in place: opening it with truncation and
+      // then writing leaves an empty or half-written (unparseable) file if the
+      // process dies in between, which the next start silently turns into an
+      // empty store. Write the new contents to a temporary file and atomically
+      // rename it over the store file, so a reader always finds either the
+      // previous or the new complete contents.
+      const std::string tmpName = _filename + ".tmp";
+      const std::string jsonData = _store.dump(2);
       {
-        std::string jsonData = _store.dump(2);
+        std::ofstream file(tmpName, std::ios::trunc);
+        if (!file)
+        {
+          iora::core::Logger::error("JsonFileStore: Failed to open " + tmpName + " for writing");
+          return;
+        }
         file << jsonData;
-        iora::core::Logger::debug("JsonFileStore: Wrote " + std::to_string(jsonData.length()) +
-                                  " bytes to " + _filename);
+        file.flush();
+        if (!file)
+        {
+          iora::core::Logger::error("JsonFileStore: Failed to write " + tmpName);
+          file.close();
+          std::remove(tmpName.c_str());
+          return;
+        }
       }
-      else
+      if (std::rename(tmpName.c_str(), _filename.c_str()) != 0)
       {
-        iora::core::Logger::error("JsonFileStore: Failed to open " + _filename + " for writing");
+        iora::core::Logger::error("JsonFileStore: Failed to rename " + tmpName + " to " + _filename);
+        std::remove(tmpName.c_str());
+        return;
       }
+      iora::core::Logger::debug("JsonFileStore: Wrote " + std::to_string(jsonData.length()) +
+                                " bytes to " + _filename);
     }
     catch (const std::exception &e)
     {
